@@ -288,8 +288,7 @@ Qed.
 Lemma consume_cs_rel ms : forall e1 e2, env_rel e1 e2 -> env_rel (consume_cs ms e1) (consume_cs ms e2).
 Proof.
   induction ms as [|m r IH]; intros e1 e2 H; cbn [consume_cs]; [assumption|].
-  destruct m; try (apply IH; assumption).
-  apply IH. destruct (N.eqb mode 2); [apply env_rel_cs_put|]; assumption.
+  apply IH. destruct (m_taken m); [apply env_rel_cs_put|]; assumption.
 Qed.
 
 Lemma m_registered_rel e1 e2 m : env_rel e1 e2 -> m_registered e1 m = m_registered e2 m.
